@@ -502,6 +502,38 @@ def model_case(m, flavour):
 for m in (1, 2, 3, -1):
     for fl in ("cif", "bcif"):
         R.check("requested model selects exactly its rows", f"model {m} {fl}", {"model": m, "flavour": fl}, lambda m=m, fl=fl: model_case(m, fl))
+
+
+def relabelled_model_case(labels, m, flavour):
+    """files of other programs number their models freely (the representative conformer first: 3, 1, 2; gaps:
+    1, 5, 9): a requested model is one model's rows - the m-th model of the file (the documented counting), or,
+    read generously, the model carrying that number - never several models, none, or a mixture"""
+    a = build(2, 3, ["", "A"], [0, 1], [False], True, False, ("charge",))
+    n = a.array_length()
+    F = pdbx.CIFFile if flavour == "cif" else pdbx.BinaryCIFFile
+    f = F()
+    pdbx.set_structure(f, a)
+    cat = f.block["atom_site"]
+    nums = np.repeat(np.array(labels), n)
+    cat["pdbx_PDB_model_num"] = nums.astype(str) if flavour == "cif" else nums.astype(np.int32)
+    try:
+        with warnings.catch_warnings():
+            warnings.simplefilter("ignore")
+            b = pdbx.get_structure(f, model=m, extra_fields=["charge"])
+    except Exception as e:
+        return f"model numbers {labels}: get_structure(model={m}) raised {type(e).__name__}: {e}"
+    by_order = same(a[m - 1 if m > 0 else m], b, ("charge",))
+    by_label = same(a[labels.index(m)], b, ("charge",)) if m in labels else "no such label"
+    if by_order and by_label:
+        return f"model numbers {labels}: get_structure(model={m}) is neither the model at that place ({by_order}) nor the one with that number ({by_label})"
+    return None
+
+
+for labels in ([3, 1, 2], [2, 3, 1], [1, 5, 9], [7, 7 + 1, 7 + 2], [3, 2, 1]):
+    for m in (1, 2, 3, -1, -3):
+        for fl in ("cif", "bcif"):
+            R.check("requested model selects exactly its rows", f"freely numbered models {fl}", {"model numbers": labels, "model": m, "flavour": fl},
+                    lambda labels=labels, m=m, fl=fl: relabelled_model_case(labels, m, fl))
 def tolerance_case(tol, level):
     """compression with a tolerance asked for: a compressed file decodes to the structure that was written, float
     columns within the *requested* relative tolerance (B-factors / occupancies / a float extra field with six
